@@ -22,6 +22,10 @@ CLAIMED = {
             "Theorems C18_preserve/C18_lines/C18_header hold for every byte string in the body character set, of any length and line structure, for the model of StringToBody/SetBody (as repaired by two fix: commits); the model is run against the real SetBody on texts with lines up to several hundred KB and multi-byte characters at the wrap positions.",
             "The UTF-8 to ISO-8859-1 translation (go-charset) is library code outside the model: the model's input is the translated text; bufio.ScanLines is modelled.",
             "DESIGN.md section 6 C18"),
+    "C12": ("Coq proof over a lexical model of path.Clean/path.Join (idempotence, confinement for every MID byte string) + correspondence by sandbox snapshots",
+            "Theorem C12_confined holds for every mailbox path and every MID byte string: each path touched by ProcessInbound, GetInboundAnswer, SetSent, SetDeferred and AddOut cleans to the mailbox's segments followed by plain segments; the model (fileName validation added by a fix: commit, path.Join, the DIR_* constants regenerated from source) is compared with the files the real DirHandler touches inside a sandbox tree.",
+            "Paths are lexical: symbolic links inside the mailbox and the operating system's own name resolution are outside the model; path.Clean/Join are modelled (validated by correspondence), the file system is observed by recursive snapshots.",
+            "DESIGN.md section 6 C12"),
 }
 
 NOT_YET = {}
